@@ -136,10 +136,22 @@ static inline uint64_t pattern_sample(const Pattern & p, const DType & dt, int64
         if (p.kind == "small") return float_bits(dt, (double) (int) (r % 16) - 8.0);
         if (p.kind == "rawbits") return r & m;     // arbitrary bit patterns incl. NaN/Inf/denormals
         if (p.kind == "nan_sprinkled") return (r % 5 == 0) ? float_bits(dt, NAN) : float_bits(dt, 100.0 * u - 50.0);
-        if (p.kind == "offset") return float_bits(dt, 1.0e6 + u);
+        if (p.kind == "offset") { double base = (dt.bits == 32) ? 1.0e6 : ((p.seed >> 3) % 3 == 0 ? 1.0e6 : (p.seed >> 3) % 3 == 1 ? 4.0e9 : 1.0e13); return float_bits(dt, base + u); }
         return float_bits(dt, 2000.0 * u - 1000.0);  // random
     }
     if (p.kind == "const") return (uint64_t) p.p1 & m;
+    if (p.kind == "offset" && dt.bits >= 8) {
+        // large DC offset with a spread of a few counts: the case in which a cancelling variance formula goes wrong
+        uint64_t top = dt.kind == 'i' ? (m >> 1) : m;                // largest positive value
+        uint64_t base;
+        switch ((p.seed >> 3) % 4) {
+            case 0: base = top - 16; break;
+            case 1: base = top - (top >> 3); break;
+            case 2: base = top >> 1; break;
+            default: base = dt.kind == 'i' ? (m - (top >> 2)) : top - 1000 % (top / 2 + 1); break;   // signed: a large negative value
+        }
+        return (base + (r % 7)) & m;
+    }
     if (p.kind == "ramp") return ((uint64_t) k + p.seed) & m;
     if (p.kind == "alt") return (k & 1) ? m : 0;
     if (p.kind == "blocks") {
